@@ -74,6 +74,38 @@ func newExpoHistogramDataPoint[N int64 | float64](
 
 // record adds a new measurement to the histogram. It will rescale the buckets if needed.
 func (p *expoHistogramDataPoint[N]) record(v N) {
+	absV := math.Abs(float64(v))
+
+	var bin int32
+	var bucket *expoBuckets
+	if float64(absV) != 0.0 {
+		bin = p.getBin(absV)
+
+		bucket = &p.posBuckets
+		if v < 0 {
+			bucket = &p.negBuckets
+		}
+
+		// If the new bin would make the counts larger than maxScale, we need to
+		// downscale current measurements.
+		if scaleDelta := p.scaleChange(bin, bucket.startBin, len(bucket.counts)); scaleDelta > 0 {
+			if p.scale-scaleDelta < expoMinScale {
+				// With a scale of -10 there is only two buckets for the whole range of float64 values.
+				// This can only happen if there is a max size of 1 or 2. The
+				// measurement is dropped before it is counted so that the
+				// count stays equal to the sum of all bucket counts.
+				otel.Handle(errors.New("exponential histogram scale underflow"))
+				return
+			}
+			// Downscale
+			p.scale -= scaleDelta
+			p.posBuckets.downscale(scaleDelta)
+			p.negBuckets.downscale(scaleDelta)
+
+			bin = p.getBin(absV)
+		}
+	}
+
 	p.count++
 
 	if !p.noMinMax {
@@ -88,35 +120,9 @@ func (p *expoHistogramDataPoint[N]) record(v N) {
 		p.sum += v
 	}
 
-	absV := math.Abs(float64(v))
-
-	if float64(absV) == 0.0 {
+	if bucket == nil {
 		p.zeroCount++
 		return
-	}
-
-	bin := p.getBin(absV)
-
-	bucket := &p.posBuckets
-	if v < 0 {
-		bucket = &p.negBuckets
-	}
-
-	// If the new bin would make the counts larger than maxScale, we need to
-	// downscale current measurements.
-	if scaleDelta := p.scaleChange(bin, bucket.startBin, len(bucket.counts)); scaleDelta > 0 {
-		if p.scale-scaleDelta < expoMinScale {
-			// With a scale of -10 there is only two buckets for the whole range of float64 values.
-			// This can only happen if there is a max size of 1.
-			otel.Handle(errors.New("exponential histogram scale underflow"))
-			return
-		}
-		// Downscale
-		p.scale -= scaleDelta
-		p.posBuckets.downscale(scaleDelta)
-		p.negBuckets.downscale(scaleDelta)
-
-		bin = p.getBin(absV)
 	}
 
 	bucket.record(bin)
